@@ -75,11 +75,12 @@ class Recorder:
         }
 
     # -- one scan -----------------------------------------------------------------------------
-    def scan(self, data: bytes, k: int, *, lo: bool = False, subs: bool = False, lo_first: bool = False, defer_subs: bool = False) -> dict:
+    def scan(self, data: bytes, k: int, *, lo: bool = False, subs: bool = False, lo_first: bool = False, defer_subs: bool = False,
+             prepared: bool = False) -> dict:
         """lo_first: the scan with limit k-1 is made BEFORE the recorded one (state that one scan leaves behind must not show
         in the other, whichever comes first).  defer_subs: the independent re-scans of decoded values are made later, by
         finish_subs() (nothing a scan reports may depend on how old the process is)."""
-        lo_tree = self.plain.scan(data, k - 1) if (lo and lo_first) else None
+        lo_tree = self._aux(lambda: self.plain.scan(data, k - 1)) if (lo and lo_first) else None
         self.collects: list = []
         self.texts: list[bytes] = []
         self.tix: dict[bytes, int] = {}
@@ -91,7 +92,14 @@ class Recorder:
         old = signal.signal(signal.SIGALRM, _on_alarm)
         signal.alarm(self.hang_s)
         try:
-            tree = self.md.scan(data, k)
+            if prepared:
+                # the other public entry: scan_node on a node the caller prepared, here with the constructor's default span;
+                # everything below the root is as for scan(); the root's own span is the caller's and is recorded as scan()'s
+                tree = self.md.scan_node(Node("", data), k)
+                if tree is not None and (tree.start, tree.end) == (0, 0):
+                    tree.end = len(data)
+            else:
+                tree = self.md.scan(data, k)
         except ScanTimeout:
             outcome = "hang"
         except RecursionError:
@@ -137,7 +145,7 @@ class Recorder:
                 rec["iter"] = [-2]
             if lo:
                 rec["hasLo"] = True
-                rec["lo"] = self._walk(lo_tree if lo_tree is not None else self.plain.scan(data, k - 1), {})[0]
+                rec["lo"] = self._walk(lo_tree if lo_tree is not None else self._aux(lambda: self.plain.scan(data, k - 1)), {})[0]
             if subs and defer_subs:
                 self.deferred.append((rec, objs, obs, k, set(self.kid_ids), list(self.texts), dict(self.tix)))
             elif subs:
@@ -146,6 +154,19 @@ class Recorder:
         rec["hits"] = [hits.get(t, []) for t in range(1, len(self.texts) + 1)]
         self.last_tree = tree
         return rec
+
+    def _aux(self, fn) -> Node:
+        """An auxiliary scan (lower depth limit, independent re-scan).  If it raises or hangs, what is compared is a tree that
+        cannot equal any real one, so the clause that needed it rejects - the harness itself never dies of the code under test."""
+        old = signal.signal(signal.SIGALRM, _on_alarm)
+        signal.alarm(self.hang_s)
+        try:
+            return fn()
+        except BaseException as e:  # noqa: BLE001
+            return Node("<auxiliary scan raised " + type(e).__name__ + ">", b"", "", -1, -1)
+        finally:
+            signal.alarm(0)
+            signal.signal(signal.SIGALRM, old)
 
     def finish_subs(self) -> None:
         """The deferred independent re-scans (see scan(defer_subs=True)); texts met now are interned into the trace's own table."""
@@ -207,7 +228,7 @@ class Recorder:
             steps[i] = steps[o["p"]] + (0 if is_ctx else 1)
             if o["by"] == "engine" and not is_ctx and not _had_kids(n, self.kid_ids):
                 d = k - steps[i]
-                twin = self.plain.scan_node(Node(n.type, n.value), d)
+                twin = self._aux(lambda n=n, d=d: self.plain.scan_node(Node(n.type, n.value), d))
                 sub = self._walk(twin, {})[0]
                 # the twin's root is a bare Node(type, value): start = end = 0 by construction
                 out.append({"pos": i, "d": d, "tree": sub})
